@@ -391,6 +391,7 @@ def random_segments(exe, seed, nseg, length, dims=(2, 3, 4, 5, 6), faults=False,
 def trace_cfg(name, faults=True, nblk=40, cap=32):
     if nblk > 12:
         nblk = 256            # random histories: up to 32 cached blocks per class plus a Burst of 70 temporaries
+        cap = 256             # no assumption about the capacity of a cache class (not part of any property): caching is allowed whenever it happens
     p = os.path.join(vlib.BUILD, name + ".cfg")
     with open(p, "w") as f:
         f.write("""SPECIFICATION TSpec
